@@ -72,10 +72,10 @@ func RunRestart(e *Env) {
 		}
 		return c
 	}
-	for i := 0; i < e.Pick(40, 1200); i++ {
+	for i := 0; i < e.Pick(40, 4000); i++ {
 		cases = append(cases, mk([]string{"default", "short", "short"}[rng.Intn(3)]))
 	}
-	for i := 0; i < e.Pick(8, 100); i++ {
+	for i := 0; i < e.Pick(8, 300); i++ {
 		cases = append(cases, mk("B6s"))
 	}
 	// the directed sequence for the back-off clause
